@@ -363,6 +363,20 @@ def pair_oracle(args):
     n = args["n"]
     kind = args["kind"]
     base = rand_circuit(rng, n, args["m"], long_range=(kind != "near-product"))
+    if kind == "equivalent-blocked":
+        # two long-range gates: the earlier one still waits behind a nearest-neighbour gate it does not commute with while the later
+        # one is already in the front layer
+        n = max(n, 6)
+        base = QuantumCircuit(n)
+        g1 = str(rng.choice(["cx", "rxx"]))
+        base.cx(1, 2) if g1 == "cx" else base.rxx(float(rng.uniform(0.4, 2.0)), 1, 2)
+        l1 = str(rng.choice(["cz", "cp", "cx", "xc"]))
+        {"cz": lambda: base.cz(0, 2), "cp": lambda: base.cp(float(rng.uniform(0.5, 2.5)), 0, 2), "cx": lambda: base.cx(0, 2), "xc": lambda: base.cx(2, 0)}[l1]()
+        l2 = str(rng.choice(["cz", "cx", "rzz"]))
+        {"cz": lambda: base.cz(3, 5), "cx": lambda: base.cx(3, 5), "rzz": lambda: base.rzz(float(rng.uniform(0.5, 2.5)), 3, 5)}[l2]()
+        tail = rand_circuit(rng, n, args["m"], long_range=False)
+        base.compose(tail, inplace=True)
+        kind = "equivalent"
     if kind == "equivalent":
         other = QuantumCircuit(n)
         for ci in base.data:  # re-synthesis: h = rz ry style rewrites that keep the unitary (up to phase)
@@ -416,6 +430,9 @@ def search(ctx):
         eps = float(ctx.rng.choice([0.1, 0.2, 0.3, 0.45, 0.7]))
         plan.append(dict(seed=int(ctx.rng.integers(0, 2**31)), n=int(ctx.rng.integers(2, 6)), m=int(ctx.rng.integers(2, 9)), kind=kind,
                          eps=eps, fidelity=fid, threshold=float(ctx.rng.choice([1e-13, 1e-11, 1e-9]))))
+    for k in range(ctx.scale(6, 60)):
+        plan.append(dict(seed=int(ctx.rng.integers(0, 2**31)), n=6, m=int(ctx.rng.integers(0, 5)), kind="equivalent-blocked", eps=0.0,
+                         fidelity=float(ctx.rng.choice([0.99, 1 - 1e-9])), threshold=float(ctx.rng.choice([1e-13, 1e-11]))))
     for k in range(ctx.scale(10, 120)):
         plan.append(dict(seed=int(ctx.rng.integers(0, 2**31)), n=int(ctx.rng.integers(2, 7)), m=int(ctx.rng.integers(0, 7)), kind="near-product",
                          eps=float(ctx.rng.choice([0.1, 0.2, 0.25, 0.3])), fidelity=None, above=bool(k % 3), threshold=float(ctx.rng.choice([1e-13, 1e-11]))))
